@@ -165,7 +165,9 @@ func u32(v uint32) *uint32 { return &v }
 func i64(v int64) *int64   { return &v }
 
 func (g *G) mount(dst string, tag int) nm.Mount {
-	opts := [][]string{nil, {"ro"}, {"rw", "rprivate"}, {"bind", "ro"}}[g.r.Intn(4)]
+	// rprivate is the one propagation option that does not consult the host's mountinfo (W5); it may stand
+	// anywhere in the list
+	opts := [][]string{nil, {"ro"}, {"rw", "rprivate"}, {"bind", "ro"}, {"rprivate", "ro"}, {"rbind", "rprivate", "nosuid", "ro"}}[g.r.Intn(6)]
 	return nm.Mount{Dest: dst, Type: []string{"bind", "tmpfs", ""}[g.r.Intn(3)], Source: fmt.Sprintf("/src/p%d%s", tag, dst), Opts: opts}
 }
 
@@ -289,6 +291,9 @@ const (
 	OpRemove
 	OpRemoveSet
 	OpSetRemove // generator streams only: set listed before the removal marker
+	// OpOtherMarkSet: a removal marker for ANOTHER item — the one named "-"+key, i.e. the key "--"+key —
+	// together with a set of key: it releases nothing of key (W7 territory: outside C03/C04, inside C01/C02)
+	OpOtherMarkSet
 )
 
 type Action struct {
@@ -306,6 +311,9 @@ func (g *G) applyAction(a *nm.Adjust, act Action, tag int) {
 		first, second = false, false
 	}
 	mark := func(k string) string { return "-" + k }
+	if act.Op == OpOtherMarkSet {
+		mark = func(k string) string { return "--" + k }
+	}
 	switch it.Kind {
 	case "ann":
 		if rm {
